@@ -91,6 +91,7 @@ def rule_inside(chk, cvar):
     RES = ("send", "throw", "close", "__next__")
     resumers = {}
     bad = []
+    helper_run = []
     for f in [w] + [g for g in ctx.p.mod("_generators").funcs.values() if g.qualname.startswith(w.qualname + ".")]:
         for n in iter_own_nodes(f.node):
             if isinstance(n, ast.Call):
@@ -99,6 +100,21 @@ def rule_inside(chk, cvar):
                 if isinstance(n.func, ast.Name) and n.func.id == "next" and n.args and isinstance(n.args[0], ast.Name) and n.args[0].id == gv:
                     resumers.setdefault(f, []).append(n)
                 if any(isinstance(a, ast.Name) and a.id == gv for a in n.args) and not (isinstance(n.func, ast.Name) and n.func.id == "next"):
+                    # <cvar>.run(<repo function>, gen, ...): the generator is handed to a helper that runs inside the generator's own context
+                    if isinstance(n.func, ast.Attribute) and n.func.attr == "run" and isinstance(n.func.value, ast.Name) and n.func.value.id == cvar and n.args \
+                            and isinstance(n.args[0], ast.Name):
+                        r0 = ctx.p.resolve_name(f.module, f, n.args[0].id)
+                        if r0 and r0[0] == "func":
+                            h = r0[1]
+                            idx = [i for i, a in enumerate(n.args[1:]) if isinstance(a, ast.Name) and a.id == gv]
+                            hp = [h.pos_params[i] for i in idx if i < len(h.pos_params)]
+                            only_resumed = bool(hp) and all(
+                                isinstance(par, ast.Attribute) and par.attr in RES
+                                for x in iter_own_nodes(h.node) if isinstance(x, ast.Name) and x.id in hp
+                                for par in [next((y for y in iter_own_nodes(h.node) if isinstance(y, ast.Attribute) and y.value is x), None)])
+                            if only_resumed:
+                                helper_run.append(h)
+                                continue
                     bad.append("the generator object escapes to %s" % unparse(n)[:40])
             if isinstance(n, (ast.YieldFrom,)) and isinstance(n.value, ast.Name) and n.value.id == gv:
                 bad.append("`yield from` resumes the generator outside its context")
@@ -122,6 +138,10 @@ def rule_inside(chk, cvar):
                     method_values_ok += 1
                 else:
                     bad.append("%s.%s is handed to %s, i.e. the generator is resumed outside %s.run(...): in the driver's context" % (gv, n.attr, unparse(par)[:40] if par is not None else "?", cvar))
+    if helper_run and not resumers and not bad:
+        chk.ok("C15.inside", "wrapper:generator-resumed-only-inside-its-own-context", chk.where(w),
+               "the generator is resumed only by %s, which runs through %s.run(...)" % (", ".join(h.fq for h in helper_run), cvar), sites=len(helper_run))
+        return gv, []
     if not resumers and (method_values_ok or bad):
         chk.req(not bad, "C15.inside", "wrapper:generator-resumed-only-inside-its-own-context", chk.where(w),
                 good="%s.send/throw are passed only to %s.run(...)" % (gv, cvar), fail="; ".join(bad), sites=method_values_ok + len(bad))
